@@ -160,7 +160,7 @@ fn c02_strategy(ctx: &Ctx) -> BoxedStrategy<SeqCase> {
   let max_ops = ctx.tier.pick(4, 6);
   (gen::chain(&cfg, 1, max_ops), 0u64..4)
     .prop_map(|(root, hash_seed)| SeqCase {
-      case: Case { root, hots: vec![], hot_illformed: false, conn: None, recorders: vec![vec![]], actions: vec![Action::Subscribe(0)] },
+      case: Case { root, hots: vec![], hot_illformed: false, conn: None, conn_take: None, recorders: vec![vec![]], actions: vec![Action::Subscribe(0)] },
       hash_seed,
     })
     .boxed()
@@ -285,7 +285,7 @@ fn c03_seq_eq_strategy(ctx: &Ctx) -> BoxedStrategy<SeqCase> {
       }
       root.renumber();
       SeqCase {
-        case: Case { root, hots: vec![], hot_illformed: false, conn: None, recorders: vec![vec![]], actions: vec![Action::Subscribe(0)] },
+        case: Case { root, hots: vec![], hot_illformed: false, conn: None, conn_take: None, recorders: vec![vec![]], actions: vec![Action::Subscribe(0)] },
         hash_seed,
       }
     })
@@ -324,7 +324,7 @@ fn c03_rsg_strategy(ctx: &Ctx) -> BoxedStrategy<SeqCase> {
       let mut actions = vec![Action::Subscribe(0)];
       actions.extend(later.into_iter().map(|e| Action::Emit(0, e)));
       SeqCase {
-        case: Case { root, hots: vec![HotKind::Harness], hot_illformed: false, conn: None, recorders: vec![vec![]], actions },
+        case: Case { root, hots: vec![HotKind::Harness], hot_illformed: false, conn: None, conn_take: None, recorders: vec![vec![]], actions },
         hash_seed,
       }
     })
